@@ -35,7 +35,9 @@ BlobLen(c) == CASE c = "empty" -> 0 [] c = "one" -> 1 [] c = "long" -> 5000 [] O
 \* containers a leaf is placed in
 \* ("hidden": a slice of two structs whose second field is unexported and takes no bytes; "zerow"/"zerowh": slices of
 \*  elements that take no bytes at all - the empty struct, a struct with unexported fields only)
-Containers == {"direct", "ptr", "slice0", "slice1", "slice3", "array2", "field", "nested", "hidden", "zerow", "zerowh"}
+\* "slices": a slice of three slices with 0, 1 and 2 elements; "inner": a struct with a slice field between two other fields;
+\* "arrays": an array of two arrays of two
+Containers == {"direct", "ptr", "slice0", "slice1", "slice3", "array2", "field", "nested", "hidden", "zerow", "zerowh", "slices", "inner", "arrays"}
 
 \* tokens of a leaf value
 LeafTokens(k, c) == IF k \in Blobs THEN << <<"len", 4>>, <<"data", BlobLen(c)>> >> ELSE << <<k, W(k)>> >>
@@ -54,6 +56,9 @@ Enc(k, c, cont) ==
          [] cont = "nested" -> << <<"len", 4>> >> \o Rep(st, 2)
          [] cont = "hidden" -> << <<"len", 4>> >> \o Rep(v, 2)
          [] cont \in {"zerow", "zerowh"} -> << <<"len", 4>> >>
+         [] cont = "slices" -> << <<"len", 4>>, <<"len", 4>>, <<"len", 4>> >> \o v \o << <<"len", 4>> >> \o Rep(v, 2)
+         [] cont = "inner" -> << <<"u8", 1>>, <<"len", 4>> >> \o Rep(v, 2) \o << <<"len", 4>>, <<"data", 3>> >>
+         [] cont = "arrays" -> << <<"len", 4>> >> \o Rep(<< <<"len", 4>> >> \o Rep(v, 2), 2)
 
 RECURSIVE Width(_)
 Width(ts) == IF ts = <<>> THEN 0 ELSE ts[1][2] + Width(Tail(ts))
